@@ -51,29 +51,29 @@ CHECKS = {
    text="WindowLimit.tla is the accept/reject decision over size ranks (clamp to the format maximum); TLC checks its soundness properties and enumerates descriptors x boundary limits (requested-1/0/+1, 0, around the default, around the format maximum, 2^64-1) x window / single-segment declaration x decoder history x seven front ends with the specified outcome; every case is materialised and run on the real front end under the counting allocator: accept/reject, reported requested/max values, largest allocation before a rejection.",
    note="20 descriptors in the quick tier, all 256 in the thorough tier; acceptance of windows above 64 MiB only on paths that do not pre-allocate", technique=TECH),
  "C12": dict(level=MC, design="5/C12",
-   text="FSE.tla is RFC 8878 4.1. Decoder: FSECases.tla enumerates normalised distributions (less-than-one entries, zero runs), proves ReadDesc/DescBytes inversion and state partition on each and writes description + specified table; the real build_decoder must produce exactly that table. Encoder: normalisation under production parameters, every encoder state, the written description and short 1-/2-state streams are dumped as rows and judged by FSERows.Ok; predefined tables of both sides equal Table(6|6|5, RFC distribution).",
+   text="FSE.tla is RFC 8878 4.1. Decoder: FSECases.tla enumerates normalised distributions (less-than-one entries, zero runs), proves ReadDesc/DescBytes inversion and state partition on each and writes description + specified table; the real build_decoder must produce exactly that table. Encoder: normalisation under production parameters, every encoder state, the written description and short 1-/2-state streams are dumped as rows and judged by FSERows.Ok; predefined tables of both sides equal Table(6|6|5, RFC distribution). What the compressor really writes: ParseClasses.tla (HistRows) models the accuracy-log choice of the table builder and enumerates code histograms reaching every regime incl. the clamp of each field; a valid parse with exactly that histogram is compressed through the public Matcher trait, the frame must decode with both decoders, and the table descriptions found in the block are read by TLC with ReadDesc (limits 9/8/9, normalised, every used code encodable).",
    note="decoder accuracy log 5 (6 in thorough) over a value menu; encoder tables up to log 9; streams of 4..9 symbols", technique=TECH),
  "C13": dict(level=MC, design="5/C13",
    text="Huffman.tla is RFC 8878 4.2. Decoder: HufCases.tla enumerates all explicit weight vectors up to a bound, classifies them and writes description, literals using every symbol and the bit stream; the real decoder must decode valid ones to exactly those literals and refuse incomplete ones. Encoder: for alphabet sizes 2..256 x rank orders x placements of unused symbols the code lengths, code values, the written description (direct / FSE compressed < 128 bytes) and 1-/4-stream encodings are judged by HufRows.Ok; boundary-length literals round-trip through both real decoders.",
    note="decoder vectors up to 4 (5) entries over weights 0..4; complete-but-not-minimal descriptions unconstrained", technique=TECH),
  "C14": dict(level=MC, design="5/C14",
-   text="ZstdFormat.tla holds the RFC tables and header layouts (FormatTheorems: contiguous code ranges, count codec inversion); the implementation's function tables of both sides are dumped through pass-through hooks (every literal/match length, offsets at all code boundaries and random 32-bit values, repeat-offset function, every sequence count through writer and parser, all literals-header patterns, block headers incl. all 2^24 as per-class summaries, every frame descriptor x window byte, the compressor's header writers) and TLC judges every row with FormatRows.Ok.",
+   text="ZstdFormat.tla holds the RFC tables and header layouts (FormatTheorems: contiguous code ranges, count codec inversion); the implementation's function tables of both sides are dumped through pass-through hooks (every literal/match length, offsets at all code boundaries and random 32-bit values, repeat-offset function, every sequence count through writer and parser, all literals-header patterns, block headers incl. all 2^24 as per-class summaries, every frame descriptor x window byte, the compressor's header writers) and TLC judges every row with FormatRows.Ok; whole frames built around one header value (raw / RLE blocks, raw / RLE / Huffman literals, literals plus a match, sequence counts) at every size-format boundary and at the 128 KiB limit are decoded through four entry points: decodable iff stored and regenerated size <= 128 KiB, content exact.",
    note="quick tier strides literal/match lengths and counts (every 5th value + all boundaries); thorough: every value", technique="TLA+ specification + row validation by TLC of dumped implementation tables"),
  "C16": dict(level=MC, design="5/C16",
-   text="ParseClasses.tla enumerates the classes of valid parses the block encoder distinguishes (sequence-count forms and boundaries, code-set shapes for the FSE builder, literals decisions); each class is materialised as a concrete valid parse (data synthesised from the plan) and driven through the public Matcher trait; ALL valid parses of all binary blocks of 3..7 bytes after histories of 0/3/5 bytes, a sample confirmed valid by TLC with Matcher!SeqsOk; seeded random valid parses of full blocks; outcome: no panic, decode by ruzstd and libzstd = input.",
+   text="ParseClasses.tla enumerates the classes of valid parses the block encoder distinguishes (sequence-count forms and boundaries, code-set shapes for the FSE builder, literals decisions, and code histograms that drive the table builder into every accuracy-log regime incl. its clamps); each class is materialised as a concrete valid parse (data synthesised from the plan) and driven through the public Matcher trait; ALL valid parses of all binary blocks of 3..7 bytes after histories of 0/3/5 bytes, a sample confirmed valid by TLC with Matcher!SeqsOk; seeded random valid parses of full blocks; outcome: no panic, decode by ruzstd and libzstd = input.",
    note="quick tier runs every 4th tiny parse; large parses sampled", technique=TECH),
  "C17": dict(level=MC, design="5/C17",
-   text="Matcher.tla: the window bookkeeping of the built-in driver explored exhaustively (window bounded, base offsets are true distances; off-by-one variant must be found), and the contract SeqsOk; the real MatchGeneratorDriver (hook: arbitrary slice size / slices per window) is driven over all binary strings for a set of block-length tuples (ternary for shorter ones), 1..3 slices, match/skip per block, reset-and-reuse; every run reporting a match is a row judged by MatcherRows.Ok against the retained data Matcher!Evict predicts; full-size seeded runs checked with the same rule.",
+   text="Matcher.tla: the window bookkeeping of the built-in driver explored exhaustively (window bounded, base offsets are true distances; off-by-one variant must be found), and the contract SeqsOk; the real MatchGeneratorDriver (hook: arbitrary slice size / slices per window) is driven over all binary strings for a set of block-length tuples (ternary for shorter ones), 1..3 slices, match/skip per block, reset-and-reuse; block lengths incl. tuples where one block pushes out two entries at once; every run reporting a match is a row judged by MatcherRows.Ok (true match, distance within the advertised window and the committed data, tiling; deviation from the as-built eviction Matcher!Evict is drift only); full-size seeded runs with mixed block lengths and recycled buffers checked with the same rule.",
    note="slices of 5..8 bytes exhaustively; full-size behaviour sampled", technique=TECH),
  "C18": dict(level=MC, design="5/C18",
-   text="IoLayer.tla specifies read_exact, take+read and write_all over scripted readers/writers; TLC enumerates all scripts up to 3 (4) answers x buffer sizes x limits; a second harness crate is built four times (std/no_std x hash/no hash) against the current tree; every IoLayer case is replayed against ruzstd::io of each build; a common program set (decode every model frame three ways, compress one input per content class at both levels) runs in all four and is compared in lock step under the Features refinement mapping (no-hash frame = hash frame minus checksum flag and trailer).",
+   text="IoLayer.tla specifies read_exact, take+read and write_all over scripted readers/writers; TLC enumerates all scripts up to 3 (4) answers x buffer sizes x limits; a second harness crate is built four times (std/no_std x hash/no hash) against the current tree; every IoLayer case is replayed against ruzstd::io of each build; a common program set (decode every model frame three ways, compress one input per content class at both levels with a fresh compressor and with ONE compressor reused over all inputs, each frame decoded back) runs in all four and is compared in lock step under the Features refinement mapping (no-hash frame = hash frame minus checksum flag and trailer).",
    note="program set small; I/O layer exhaustive within bounds", technique=TECH),
  "C19": dict(level=MC, design="5/C19",
-   text="Cli.tla maps scenarios (level option, output path, input kind, output location, archive kind) to specified effects; TLC enumerates all 132 scenarios; each runs against the freshly built ruzstd-cli in a scratch directory: exit status class, no panic, no new file after a failed compress, round trip through the tool and through libzstd on success.",
+   text="Cli.tla maps scenarios (level option, output path, input kind, output location, archive kind, output path free or holding an older shorter / longer file) to specified effects; TLC enumerates all 324 scenarios; each runs against the freshly built ruzstd-cli in a scratch directory: exit status class, no panic, no new file after a failed compress, round trip through the tool and through libzstd on success (the output is exactly the result: nothing of an older file remains).",
    note="non-zero exit without panic counts as reported failure", technique="TLA+ scenario specification enumerated by TLC + replay on the real binary"),
  "C20": dict(level=MC, design="5/C20",
-   text="DictBuilder.tla is the control flow and size arithmetic of create_raw_dict_from_source; TLC proves on a 14^3 grid that every step stays inside its precondition and that the output bound is <= requested; the real builder runs on the same grid x source kinds (seeded RNG, watchdog) and every run is a row judged by TLC (no panic, finished, length <= requested and <= structural bound); estimates beyond 32 bits against the documented promise.",
-   note="three source kinds per grid point", technique=TECH),
+   text="DictBuilder.tla is the control flow and size arithmetic of create_raw_dict_from_source; TLC proves on a 14^3 grid that every step stays inside its precondition and that the output bound is <= requested; the real builder runs on the same grid x source kinds (seeded RNG, watchdog) and every run is a row judged by TLC (no panic, finished, length <= requested and <= structural bound); estimates beyond 32 bits against the documented promise. ReservoirFill.tla is the sampling loop as a state machine over readers that cut their answers: TLC checks termination as a liveness property (the shrink-only variant must be found to loop), every (length, script) it explored is replayed through a scripted reader, and the grid also runs with readers answering 1 / 7 / 100 bytes at a time.",
+   note="three source kinds per grid point; as-built output bound is conformance only (drift)", technique=TECH),
 }
 NOT_YET = {}
 
